@@ -29,7 +29,7 @@ class Mode(LogMixin):
     __slots__ = ["machine", "config", "name", "path", "priority", "_active", "_starting", "_mode_start_wait_queue",
                  "stop_methods", "start_callback", "stop_callbacks", "event_handlers", "switch_handlers",
                  "mode_stop_kwargs", "mode_devices", "start_event_kwargs", "stopping", "delay", "player",
-                 "auto_stop_on_ball_end", "restart_on_next_ball", "asset_paths"]
+                 "auto_stop_on_ball_end", "restart_on_next_ball", "asset_paths", "_stop_cleanup_pending"]
 
     # pylint: disable-msg=too-many-arguments
     def __init__(self, machine: "MachineController", config, name: str, path, asset_paths) -> None:
@@ -62,6 +62,7 @@ class Mode(LogMixin):
         self.mode_devices = set()               # type: Set[ModeDevice]
         self.start_event_kwargs = {}            # type: Dict[str, Any]
         self.stopping = False
+        self._stop_cleanup_pending = False
 
         self.delay = DelayManager(self.machine)
         '''DelayManager instance for delays in this mode. Note that all delays
@@ -167,6 +168,11 @@ class Mode(LogMixin):
         if self._starting:
             self.debug_log("Mode already starting. Aborting start.")
             return
+
+        # a start requested by a handler of mode_(name)_stopped (or of events_when_stopped) arrives before the
+        # handlers and devices of the previous run were removed. finish that first. otherwise it would remove
+        # the handlers and devices of the new run.
+        self._finish_stop()
 
         self._starting = True
 
@@ -349,6 +355,8 @@ class Mode(LogMixin):
 
         self.stop_methods = list()
 
+        self._stop_cleanup_pending = True
+
         for event_name in self.config['mode']['events_when_stopped']:
             self.machine.events.post(event_name)
 
@@ -380,6 +388,14 @@ class Mode(LogMixin):
 
     def _mode_stopped_callback(self, **kwargs) -> None:
         del kwargs
+        self._finish_stop()
+
+    def _finish_stop(self) -> None:
+        """Remove everything the stopped mode registered (once per stop)."""
+        if not self._stop_cleanup_pending:
+            return
+
+        self._stop_cleanup_pending = False
 
         # Call the mode_stop() method before removing the devices
         self.mode_stop(**self.mode_stop_kwargs)
